@@ -1,4 +1,4 @@
-//! Root-cause tags for two recorded findings. Each tag is computed from a guarded hook event, i.e.
+//! Root-cause tags for three recorded findings. Each tag is computed from a guarded hook event, i.e.
 //! from what the interpreter actually did in the observed run, and then follows the data: a run is
 //! tagged if it shows the cause itself or if its previous or current data descends from the output
 //! of such a run. A violation raised for a tagged step gets the cause's suffix appended to its
@@ -58,25 +58,32 @@ pub fn failed_call_left_state(out: &RunOutcome) -> bool {
     out.events.iter().any(|e| matches!(e, Event::FailedCallLeavesSentState { .. }))
 }
 
+pub fn after_states_unconsumed(out: &RunOutcome) -> u64 {
+    out.events.iter().map(|e| if let Event::FoldAfterStatesUnconsumed { states, .. } = e { *states } else { 0 }).sum()
+}
+
 pub const SUFFIX: &str = "+fold-lore-dropped";
+/// states recorded by the last instruction of a stream fold for an iteration that is not the last of its
+/// chain on this peer are left unconsumed and dropped (DESIGN.md 12.10)
+pub const SUFFIX_LAST: &str = "+fold-last-instruction-states-dropped";
 pub const SUFFIX_CALL: &str = "+failed-call-left-sent-state";
 
 /// per step of the history and per cause: does the run show the cause, or consume data that descends
 /// from a run that did
-pub fn by_step(h: &History) -> Vec<(bool, bool)> {
+pub fn by_step(h: &History) -> Vec<(bool, bool, bool)> {
     let key = |b: &[u8]| (fnv(b), b.len());
-    let mut bad: [HashSet<(u64, usize)>; 2] = [HashSet::new(), HashSet::new()];
+    let mut bad: [HashSet<(u64, usize)>; 3] = [HashSet::new(), HashSet::new(), HashSet::new()];
     let mut out = Vec::with_capacity(h.steps.len());
     for s in &h.steps {
-        let own = [dropped_states(&s.out) > 0, failed_call_left_state(&s.out)];
-        let mut t = [false, false];
-        for c in 0..2 {
+        let own = [dropped_states(&s.out) > 0, failed_call_left_state(&s.out), after_states_unconsumed(&s.out) > 0];
+        let mut t = [false, false, false];
+        for c in 0..3 {
             t[c] = own[c] || (!s.input.prev.is_empty() && bad[c].contains(&key(&s.input.prev))) || (!s.input.cur.is_empty() && bad[c].contains(&key(&s.input.cur)));
             if t[c] && !s.out.data.is_empty() {
                 bad[c].insert(key(&s.out.data));
             }
         }
-        out.push((t[0], t[1]));
+        out.push((t[0], t[1], t[2]));
     }
     out
 }
@@ -86,7 +93,7 @@ pub fn first_drop(h: &History) -> Option<usize> {
 }
 
 thread_local! {
-    static CTX: RefCell<Option<Vec<(bool, bool)>>> = RefCell::new(None);
+    static CTX: RefCell<Option<Vec<(bool, bool, bool)>>> = RefCell::new(None);
 }
 
 /// Set while the monitors of one honest history run on this thread.
@@ -105,11 +112,42 @@ pub fn suffix(prop: &str, step: Option<usize>) -> String {
     CTX.with(|c| match &*c.borrow() {
         None => String::new(),
         Some(v) => {
-            let (a, b) = match step {
-                Some(i) => v.get(i).copied().unwrap_or((false, false)),
-                None => (v.iter().any(|t| t.0), v.iter().any(|t| t.1)),
+            let (a, b, l) = match step {
+                Some(i) => v.get(i).copied().unwrap_or((false, false, false)),
+                None => (v.iter().any(|t| t.0), v.iter().any(|t| t.1), v.iter().any(|t| t.2)),
             };
-            format!("{}{}", if a { SUFFIX } else { "" }, if b { SUFFIX_CALL } else { "" })
+            format!("{}{}{}", if a { SUFFIX } else { "" }, if b { SUFFIX_CALL } else { "" }, if l { SUFFIX_LAST } else { "" })
         }
     })
 }
+
+/// Does the script hold a fold over a stream or stream map whose last instruction leaves states (anything
+/// but null/never)? Such an instruction runs once per iteration chain, and the chains depend on how the peer
+/// happened to group the values into generations (DESIGN.md 12.10).
+pub fn has_stateful_last_instruction_in_stream_fold(air: &str) -> bool {
+    use air_parser::ast::Instruction as I;
+    fn stateful(i: &I<'_>) -> bool {
+        !matches!(i, I::Null(_) | I::Never(_))
+    }
+    fn walk(i: &I<'_>) -> bool {
+        match i {
+            I::Seq(b) => walk(&b.0) || walk(&b.1),
+            I::Par(b) => walk(&b.0) || walk(&b.1),
+            I::Xor(b) => walk(&b.0) || walk(&b.1),
+            I::Match(b) => walk(&b.instruction),
+            I::MisMatch(b) => walk(&b.instruction),
+            I::New(b) => walk(&b.instruction),
+            I::FoldScalar(b) => walk(&b.instruction) || b.last_instruction.as_ref().map(|l| walk(l)).unwrap_or(false),
+            I::FoldStream(b) => walk(&b.instruction) || b.last_instruction.as_ref().map(|l| stateful(l)).unwrap_or(false),
+            I::FoldStreamMap(b) => walk(&b.instruction) || b.last_instruction.as_ref().map(|l| stateful(l)).unwrap_or(false),
+            _ => false,
+        }
+    }
+    match air_parser::parse(air) {
+        Ok(ast) => walk(&ast),
+        Err(_) => false,
+    }
+}
+
+/// Script-level tag for C08: which calls such a last instruction makes depends on the delivery order.
+pub const SUFFIX_LAST_SCRIPT: &str = "@script-with-stateful-last-instruction-in-a-stream-fold";
